@@ -32,7 +32,7 @@ WHY = {
 }
 for e in sorted(known, key=lambda e: e["property"]):
     k = e["key"] if isinstance(e["key"], str) else "; ".join(e["key"])
-    out.append("| %s | `%s` | %s | %s |" % (e["property"], esc(k), esc(e["what"]), WHY.get(e["property"], "")))
+    out.append("| %s | `%s` | %s | %s |" % (e["property"], esc(k), esc(e["what"]), esc(e.get("why_not_fixed") or WHY.get(e["property"], ""))))
 findings = "\n".join(out)
 
 rows = ["| seed | property | what the independent agent changed | needs to manifest | first result | final result | keys that fired |", "|---|---|---|---|---|---|---|"]
